@@ -225,6 +225,30 @@ def _copy(obj, method):
     return copy.deepcopy(obj)
 
 
+def _registers(m):
+    """What copying must leave alone in the object that is copied."""
+    return {'cells': sorted(map(str, getattr(m, 'cells', {}) or {})),
+            'books': sorted(map(str, getattr(m, 'books', {}) or {})),
+            'nodes': len(m.dsp.nodes), 'basedir': getattr(m, 'basedir', None)}
+
+
+def _copy_checked(model, obj, method, ctx, what, w):
+    """Copies obj (model, or a tuple holding it); the original model's own
+    registers must be the same afterwards."""
+    before = _registers(model)
+    out = _copy(obj, method)
+    after = _registers(model)
+    ctx.count('monitor.original-intact-after-copy')
+    if before != after:
+        k = [x for x in before if before[x] != after[x]][0]
+        ctx.violation('copying-changed-the-original:%s:%s' % (what, k), dict(
+            w, observed='%s: %d entries' % (k, len(after[k])) if isinstance(
+                after[k], list) else repr(after[k]),
+            accepted=['%s: %d entries (as before the copy)' % (k, len(before[k]))
+                      if isinstance(before[k], list) else repr(before[k])]))
+    return out
+
+
 def _ids(desc, items):
     out = []
     for kind, key in items:
@@ -543,8 +567,8 @@ def check_trio(case, ctx):
              'history_so_far': [[s_, o_] for s_, o_, _ in case['history'][:step + 1]]}
         if 'b' not in objs and step >= case['copy_at']:
             try:
-                objs['b'] = _copy(objs['a'], m1)
-                objs['c'] = _copy(objs['b'], m2)       # a copy of a copy
+                objs['b'] = _copy_checked(objs['a'], objs['a'], m1, ctx, what, w)
+                objs['c'] = _copy_checked(objs['b'], objs['b'], m2, ctx, what, w)
             except Exception as ex:
                 ctx.violation('copy-raised:%s:%s' % (what, type(ex).__name__), dict(
                     w, observed='%s: %s' % (type(ex).__name__, str(ex)[:200]),
@@ -690,10 +714,10 @@ def check_case(case, ctx):
             try:
                 if case['object'] == 'function':
                     # the pair (model, function) is copied together
-                    b, fb0 = _copy((a, fa[0]), case['method'])
+                    b, fb0 = _copy_checked(a, (a, fa[0]), case['method'], ctx, what, w)
                     fb = (fb0, fa[1], fa[2])
                 else:
-                    b = _copy(a, case['method'])
+                    b = _copy_checked(a, a, case['method'], ctx, what, w)
             except Exception as ex:
                 ctx.violation('copy-raised:%s:%s' % (what, type(ex).__name__), dict(
                     w, observed='%s: %s' % (type(ex).__name__, str(ex)[:200]),
